@@ -1,8 +1,13 @@
 #!/bin/bash
-# try_seed.sh <seed-id> <PROP> [tier]  -- applies /verif/seeded/<id>/patch.diff to /repo, runs the check, reverts.
+# try_seed.sh <seed-id> <PROP> [tier]  -- runs the check of PROP against a scratch worktree of /repo HEAD with
+# /verif/seeded/<id>/patch.diff applied (never touches /repo itself); evidence and replays of the trial go to /tmp.
 ID=$1; PROP=$2; TIER=${3:-quick}
-cd /repo && git apply /verif/seeded/$ID/patch.diff || { echo "apply failed"; exit 2; }
-cd /verif && ./check $PROP --tier $TIER > /tmp/try-$ID.out 2>&1; RC=$?
-git -C /repo checkout -- . 
+WT=/tmp/seedrepo-$ID-$PROP
+rm -rf $WT; git -C /repo worktree prune
+git -C /repo worktree add -q --detach $WT HEAD || { echo "worktree failed"; exit 2; }
+( cd $WT && git apply /verif/seeded/$ID/patch.diff ) || { echo "apply failed"; git -C /repo worktree remove --force $WT; exit 2; }
+mkdir -p /tmp/seed-evidence /tmp/seed-replays
+cd /verif && VERIF_REPO=$WT VERIF_EVIDENCE_DIR=/tmp/seed-evidence VERIF_REPLAYS_DIR=/tmp/seed-replays ./check $PROP --tier $TIER > /tmp/try-$ID.out 2>&1; RC=$?
+git -C /repo worktree remove --force $WT
 echo "seed=$ID prop=$PROP tier=$TIER rc=$RC"; grep -E "VIOLATION|KNOWN|INFRA" /tmp/try-$ID.out | head -5
 exit $RC
